@@ -946,7 +946,7 @@ class QueryBuilder(Selectable, Term):  # type:ignore[misc]
             else:
                 sub_query_count = 0
 
-            sub_query_count = max(self._subquery_count, sub_query_count)
+            sub_query_count = self._free_subquery_number(max(self._subquery_count, sub_query_count))
             selectable.alias = "sq%d" % sub_query_count
             self._subquery_count = sub_query_count + 1
 
@@ -1453,9 +1453,19 @@ class QueryBuilder(Selectable, Term):  # type:ignore[misc]
             for criterion in (self._wheres, self._prewheres)
         )
 
+    def _free_subquery_number(self, number: int) -> int:
+        # a source may carry its sqN already (an earlier statement used the same object): that name is taken
+        in_use = {
+            getattr(source, "alias", None) for source in self._from + [j.item for j in self._joins]
+        }
+        while "sq%d" % number in in_use:
+            number += 1
+        return number
+
     def _tag_subquery(self, subquery: Self) -> None:
-        subquery.alias = "sq%d" % self._subquery_count
-        self._subquery_count += 1
+        number = self._free_subquery_number(self._subquery_count)
+        subquery.alias = "sq%d" % number
+        self._subquery_count = number + 1
 
     def _validate_terms_and_append(self, *terms: Any) -> None:
         """
